@@ -101,3 +101,17 @@ chk("C16", "GEN+SQFSCK", "exploration",
     "alphabet plus '/', x --unpack-root variants: gensquashfs(directory) -> rdsquashfs --describe / --unpack-path -> gensquashfs --pack-file must be accepted and decode to the same tree.",
     "String length <=3; root inode attributes not compared (listing has no line for '/'). Trusts SQFSCK.",
     "bounded exhaustive enumeration of names/targets through the real tool pipeline", "3/C16")
+
+ENGINES += [
+    dict(name="MKIMG", path="vlib/mkimg.py vlib/baseimgs.py", serves_properties=["C05", "C06", "C10"],
+         kind_free_text="independent SquashFS image writer (uncompressed metadata) returning the offset and width of every on-disk field; writes arbitrary directory listings"),
+]
+
+chk("C05", "MKIMG", "exploration",
+    "Deviation-bounded structure-aware enumeration of hostile images: every on-disk field of 3 (quick) / 4 (thorough) base images x a value alphabet (boundary values, flag toggles, "
+    "wrap-around complements, every other same-role value for aliasing/loops/type confusion), all pairs over inode+superblock fields of the minimal image (thorough), every metadata byte x "
+    "2 (quick) / 4 (thorough) values and every truncation length of the minimal image and of a gzip image with compressed metadata; each variant is given to rdsquashfs -l/-d/-s/-x/-c/-u, "
+    "sqfs2tar and sqfsdiff built with ASan. Oracle: terminates, no sanitizer report, no signal, no abort.",
+    "Replaces coverage-guided mutation (sampling) by exhaustive deviation-1/2 families; unstructured garbage beyond single-byte edits is not explored. Custom allocator pools can hide "
+    "overflows inside pooled objects from ASan.",
+    "bounded exhaustive enumeration of deviations from valid images against a memory-safety/termination oracle", "3/C05")
